@@ -220,7 +220,7 @@ example : WFS (.doLoop 0 1 .skip) false false = true ∧ size (.doLoop 0 1 .skip
     (({ code := codeOf (.doLoop 0 1 .skip) } : Mach).ctx.ip = 0) ∧ WF ({ code := codeOf (.doLoop 0 1 .skip) } : Mach) :=
   ⟨rfl, by decide, rfl, ⟨Nat.le_refl _, Nat.le_refl _, Nat.le_refl _, Nat.le_refl _⟩⟩
 
-/-! ### link 2: what the flow-stack compiler emits (PARTIAL: everything but definitions and locals) -/
+/-! ### link 2: what the flow-stack compiler emits -/
 
 open Xeh.Compile in
 /-- `parseS` only answers for well-formed, placed programs -/
@@ -237,32 +237,32 @@ theorem parseS_wf (toks : List Tok) (ps ps' : PState) (st : Stmt) (h : parseS to
   · cases h
 
 open Xeh.Compile in
-/-- **the flow-stack compiler emits `compileS (parseS toks)`** — PARTIAL: for token lists that neither start a
-    definition nor declare a local (`:` and `local`).  Everything else of the structured fragment is covered, in every
-    nesting: literals, constants, variables, calls of words defined earlier, native words, if/else/then,
-    case/of/endof/endcase, begin/until, begin/while/repeat, begin/repeat, do/loop, foreach, `break` in every kind of
-    loop (its jump is emitted with distance 0, stays on the pending-flow stack across the conditionals and case arms
-    that enclose it, and is patched — or turned into a `Break` opcode — when the loop closes), `[ ]`, `{ }`, `^{ ^}`,
-    `var`, `!`, `defined`, format words.  The compiler starts on a state that matches the parser's
-    (`Structured.Match2`: same dictionary and heap size, no heap limit, outside a meta block) with nothing pending.
-    FULL STATEMENT (not yet proved): the same without the restriction; programs with definitions and locals are
-    covered by per-program translation validation in the driver (`C01 struct`). -/
-theorem flow_compiler_emits_compileS_partial (toks : List Tok) (ps ps' : PState) (st : Stmt) (s0 : CState)
-    (hp : parseS toks ps = some (st, ps')) (hnb : Structured.NoBad2 ps.dict toks) (hm : Structured.Match2 ps s0)
+/-- **the flow-stack compiler emits `compileS (parseS toks)`**, for EVERY token list `parseS` accepts — the whole
+    structured fragment, in every nesting: literals, constants, variables, calls, native words, if/else/then,
+    case/of/endof/endcase, begin/until, begin/while/repeat, begin/repeat, do/loop, foreach, `break` in every kind
+    of loop (its jump is emitted with distance 0, stays on the pending-flow stack across the conditionals and case
+    arms that enclose it, and is patched — or turned into a `Break` opcode — when the loop closes), `[ ]`, `{ }`,
+    `^{ ^}`, `var`, `!`, `defined`, format words, word definitions (the name is bound before the body is read, so
+    recursive calls compile) and locals (declared anywhere in the body, shadowing resolved right-most first).
+    The compiler model is the faithful transliteration of state.rs (Model/Compile.lean: pending-flow stack,
+    `take_first_cond_flow` skipping `Break` entries, backpatching), tied to the real compiler by the `build`
+    correspondence.  It starts on a state that matches the parser's (`Structured.Match2`: same dictionary and heap
+    size, no heap limit, outside a meta block), with nothing pending and no definition open.
+    Outside `parseS`'s domain (and therefore outside this theorem): `late`, user-defined immediate words, meta blocks. -/
+theorem flow_compiler_emits_compileS (toks : List Tok) (ps ps' : PState) (st : Stmt) (s0 : CState)
+    (hp : parseS toks ps = some (st, ps')) (hm : Structured.Match2 ps s0) (hloc : ps.locals = none)
     (hfl : s0.flows = []) (hhid : s0.hiddenFlows = 0) (hpc : s0.code.length = ps.pc) :
     ∃ s, compileToks toks 0 s0 = .ok s ∧ s.code = s0.code ++ codeOf st ∧ s.dmap = s0.dmap ++ dmapOf st ∧
       s.dict = ps'.dict ∧ s.heapLen = ps'.heapLen ∧ s.flows = [] :=
-  Structured.flow_compiler_agrees2 toks ps ps' st s0 hp hnb hm hfl hhid hpc
+  Structured.flow_compiler_agrees2 toks ps ps' st s0 hp hm hloc hfl hhid hpc
 
 open Xeh.Compile in
-/-- **end to end for that fragment**: compile the tokens with the flow-stack compiler on an idle machine with no
-    code yet, load what it emitted, and the VM does what the structural evaluator says about the tree `parseS` reads
-    off the same tokens -/
-theorem source_means_what_it_says_partial (np : String → Option Prog) (toks : List Tok) (m : Mach) (f : Nat)
+/-- **end to end**: compile the tokens with the flow-stack compiler on an idle machine with no code yet, load what it
+    emitted, and the VM does what the structural evaluator says about the tree `parseS` reads off the same tokens -/
+theorem source_means_what_it_says (np : String → Option Prog) (toks : List Tok) (m : Mach) (f : Nat)
     (st : Stmt) (ps' : PState)
     (hip : m.ctx.ip = 0) (hwf : WF m) (hlim : m.insnLimit = none)
-    (hp : parseS toks { dict := m.dict, heapLen := m.heap.length } = some (st, ps'))
-    (hnb : Structured.NoBad2 m.dict toks) (hsize : size st < 2^62) :
+    (hp : parseS toks { dict := m.dict, heapLen := m.heap.length } = some (st, ps')) (hsize : size st < 2^62) :
     ∃ s, compileToks toks 0 { dict := m.dict, heapLen := m.heap.length } = .ok s ∧ s.dmap = dmapOf st ∧
       let m1 : Mach := { m with code := s.code, dict := s.dict,
                                 heap := m.heap ++ List.replicate (s.heapLen - m.heap.length) Cell.nil }
@@ -276,22 +276,25 @@ theorem source_means_what_it_says_partial (np : String → Option Prog) (toks : 
       | .exitCase _ => False
       | .timeout => True := by
   obtain ⟨hw, hpl⟩ := parseS_wf toks _ _ st hp
-  obtain ⟨s, hc, hcode, hdm, _, _, _⟩ := flow_compiler_emits_compileS_partial toks _ ps' st
-    { dict := m.dict, heapLen := m.heap.length } hp hnb ⟨rfl, rfl, rfl, rfl, rfl⟩ rfl rfl rfl
+  obtain ⟨s, hc, hcode, hdm, _, _, _⟩ := flow_compiler_emits_compileS toks _ ps' st
+    { dict := m.dict, heapLen := m.heap.length } hp ⟨rfl, rfl, rfl, rfl⟩ rfl rfl rfl rfl
   refine ⟨s, hc, by simpa using hdm, ?_⟩
   exact compiled_code_means_what_the_source_says np st f _ hw hpl hsize (by simpa using hcode) hip
     ⟨hwf.ds, hwf.rs, hwf.ls, hwf.ss⟩ hlim
 
 open Xeh.Compile in
-/-- non-vacuity: `5 0 do I 3 == if break then 1 case 1 of 7 endof endcase loop` — a `break` inside a conditional
-    inside a counted loop, and a case with one arm — is accepted by `parseS` and uses neither `:` nor `local` (the
-    hypotheses of the two theorems above; `Match2` holds for the empty compiler state by `rfl`) -/
+/-- non-vacuity: `: sq local x x x * ; 5 0 do I 3 == if break then I sq 1 case 1 of 7 endof endcase loop` — a
+    definition with a local, a `break` inside a conditional inside a counted loop, a call, a case with one arm — is
+    accepted by `parseS` (the only hypothesis about the program; `Match2` holds for the empty compiler state by `rfl`) -/
 example :
     let dict : List (String × Entry) := [("do", .native true "do"), ("loop", .native true "loop"), ("if", .native true "if"),
       ("then", .native true "then"), ("break", .native true "break"), ("case", .native true "case"), ("of", .native true "of"),
-      ("endof", .native true "endof"), ("endcase", .native true "endcase"), ("I", .native false "I"), ("==", .native false "==")]
-    let toks : List Tok := [.lit (.int 5), .lit (.int 0), .word "do", .word "I", .lit (.int 3), .word "==", .word "if", .word "break",
-      .word "then", .lit (.int 1), .word "case", .lit (.int 1), .word "of", .lit (.int 7), .word "endof", .word "endcase", .word "loop"]
-    (parseS toks { dict := dict, heapLen := 0 }).isSome = true ∧ Structured.noBad2B dict toks = true := by decide +kernel
+      ("endof", .native true "endof"), ("endcase", .native true "endcase"), ("I", .native false "I"), ("==", .native false "=="),
+      (":", .native true ":"), (";", .native true ";"), ("local", .native true "local"), ("*", .native false "*")]
+    let toks : List Tok := [.word ":", .word "sq", .word "local", .word "x", .word "x", .word "x", .word "*", .word ";",
+      .lit (.int 5), .lit (.int 0), .word "do", .word "I", .lit (.int 3), .word "==", .word "if", .word "break",
+      .word "then", .word "I", .word "sq", .lit (.int 1), .word "case", .lit (.int 1), .word "of", .lit (.int 7), .word "endof",
+      .word "endcase", .word "loop"]
+    (parseS toks { dict := dict, heapLen := 0 }).isSome = true := by decide +kernel
 
 end Xeh.C01
